@@ -1,15 +1,17 @@
 """Self-test of the analyser, not of the repository: every check must give the same verdict on the current tree and on copies of it
-rewritten, throughout, by one behaviour-preserving edit (tools/metamorph.py: 20 kinds).  A VIOLATION on a rewritten copy of a tree that
+rewritten, throughout, by one behaviour-preserving edit (tools/metamorph.py: 26 kinds).  A VIOLATION on a rewritten copy of a tree that
 passes is a rule judging a spelling; an ANALYSIS-ERROR is a form the analyser does not read yet.  Tool validation only - it is not
 part of any registered command, and the copies live in a temporary directory that is removed at the end.
 
-usage: python3-vt tools/metamorph_test.py [--validate] [kind ...]
+usage: python3-vt tools/metamorph_test.py [--validate] [--compose] [kind ...]
+       --compose adds one copy with 25 of the rewrites applied on top of each other
        --validate also runs the repository's test suite against every rewritten copy (executes code; expected: the pinned counts)"""
 import os, subprocess, sys, tempfile, shutil, pathlib, concurrent.futures as cf
 
 V = pathlib.Path(__file__).resolve().parents[1]
 KINDS = ["intarg", "matmul", "alias", "asarray", "early", "kwargs", "rename", "ifswap", "cmpflip", "floatin",
-         "axispos", "axiskw", "range0", "methodform", "retvar", "argtmp", "ternary", "comp2loop", "npname", "wrapper"]
+         "axispos", "axiskw", "range0", "methodform", "retvar", "argtmp", "ternary", "comp2loop", "npname", "wrapper",
+         "commute", "kwreorder", "lenshape", "noneform", "attrlocal", "importstyle"]
 PROPS = [f"C{i:02d}" for i in range(1, 21)]
 
 
@@ -28,7 +30,19 @@ def main():
     try:
         for k in kinds:
             subprocess.run([sys.executable, str(V / "tools" / "metamorph.py"), k, "/repo/src", str(tmp / k / "src")], check=True, capture_output=True)
-        base = {}
+        if "--compose" in sys.argv:
+            # all the rewrites one after another on the same copy (axiskw left out: it undoes axispos)
+            prev = pathlib.Path("/repo/src")
+            seq = [k for k in KINDS if k != "axiskw"]
+            for i, k in enumerate(seq):
+                nxt = tmp / f"_c{i}"
+                subprocess.run([sys.executable, str(V / "tools" / "metamorph.py"), k, str(prev), str(nxt)], check=True, capture_output=True)
+                if i:
+                    shutil.rmtree(prev, ignore_errors=True)
+                prev = nxt
+            (tmp / "composed").mkdir()
+            prev.rename(tmp / "composed" / "src")
+            kinds = kinds + ["composed"]
         with cf.ThreadPoolExecutor(16) as ex:
             futs = {ex.submit(check, "/repo/src/pyoma2", p): ("HEAD", p) for p in PROPS}
             futs.update({ex.submit(check, tmp / k / "src" / "pyoma2", p): (k, p) for k in kinds for p in PROPS})
